@@ -13,6 +13,7 @@ import (
 	"strings"
 	"time"
 	"unicode"
+	"unicode/utf8"
 
 	"github.com/osteele/liquid/values"
 	"github.com/osteele/tuesday"
@@ -226,19 +227,45 @@ func AddStandardFilters(fd FilterDictionary) { //nolint: gocyclo
 	fd.AddFilter("truncate", func(s string, length func(int) int, ellipsis func(string) string) string {
 		n := length(50)
 		el := ellipsis("...")
-		// runes aren't bytes; don't use slice
-		re := regexp.MustCompile(fmt.Sprintf(`^(.{%d})..{%d,}`, n-len(el), len(el)))
-		return re.ReplaceAllString(s, `$1`+el)
+		if n < 0 {
+			n = 0
+		}
+		// runes aren't bytes; count and cut in runes
+		rs := []rune(s)
+		if len(rs) <= n {
+			return s
+		}
+		keep := n - len([]rune(el))
+		if keep < 0 {
+			keep = 0
+		}
+		return string(rs[:keep]) + el
 	})
 	fd.AddFilter("truncatewords", func(s string, length func(int) int, ellipsis func(string) string) string {
 		el := ellipsis("...")
 		n := length(15)
-		re := regexp.MustCompile(fmt.Sprintf(`^(?:\s*\S+){%d}`, n))
-		m := re.FindString(s)
-		if m == "" {
+		if n <= 0 {
 			return s
 		}
-		return m + el
+		// find the end of the n-th word; truncate only if another word follows it
+		end, words, inWord := 0, 0, false
+		for i := 0; i < len(s); {
+			r, size := utf8.DecodeRuneInString(s[i:])
+			i += size
+			if unicode.IsSpace(r) {
+				inWord = false
+				continue
+			}
+			if !inWord {
+				if words == n {
+					return s[:end] + el
+				}
+				inWord = true
+				words++
+			}
+			end = i
+		}
+		return s
 	})
 	fd.AddFilter("upcase", func(s, suffix string) string {
 		return strings.ToUpper(s)
